@@ -560,6 +560,10 @@ class _Conv(object):
                 return inner
             if ck == "ToVoid":
                 return inner
+            if ck == "IntegralToFloating" and inner.k == "int":
+                return E("float", val=float(inner.val), ty=_qt(n), line=line, off=off)
+            if ck == "IntegralCast" and inner.k == "int":
+                return E("int", val=inner.val, name=inner.name, ty=_qt(n), line=line, off=off)
             return E("cast", op=ck, ty=_qt(n), a=[inner], line=line, off=off, val="implicit")
         if k == "CStyleCastExpr":
             inner = self.expr(n["inner"][0])
